@@ -8,6 +8,7 @@ package simos
 
 import (
 	"errors"
+	"fmt"
 	"io"
 	"io/fs"
 	"os"
@@ -515,6 +516,14 @@ type File struct {
 	closed bool
 }
 
+var dbg = os.Getenv("SIMOS_DEBUG") != ""
+
+func dlog(format string, a ...any) {
+	if dbg {
+		println(simrt.SimNow().String(), "g", simrt.CurG(), sprintf(format, a...))
+	}
+}
+
 func dead() bool {
 	if simrt.Dead() {
 		return true
@@ -611,6 +620,7 @@ func (fl *File) Read(b []byte) (int, error) {
 		return 0, nil
 	}
 	if fl.pos >= int64(len(fl.n.data)) {
+		dlog("read %s ino=%d EOF pos=%d size=%d", fl.name, fl.n.ino, fl.pos, len(fl.n.data))
 		return 0, io.EOF
 	}
 	n := copy(b, fl.n.data[fl.pos:])
@@ -621,6 +631,7 @@ func (fl *File) Read(b []byte) (int, error) {
 		}
 	}
 	fl.pos += int64(n)
+	dlog("read %s ino=%d n=%d pos=%d size=%d", fl.name, fl.n.ino, n, fl.pos, len(fl.n.data))
 	return n, nil
 }
 
@@ -713,6 +724,9 @@ func (fl *File) Seek(offset int64, whence int) (int64, error) {
 	}
 	if np < 0 {
 		return 0, pe("seek", fl.name, syscall.EINVAL)
+	}
+	if !(whence == io.SeekCurrent && offset == 0) {
+		dlog("seek %s ino=%d off=%d whence=%d -> %d", fl.name, fl.n.ino, offset, whence, np)
 	}
 	fl.pos = np
 	return np, nil
@@ -1086,3 +1100,5 @@ func WalkTree(root string, fn func(p string, fi FileInfo, err error) error) erro
 	}
 	return err
 }
+
+func sprintf(format string, a ...any) string { return fmt.Sprintf(format, a...) }
